@@ -27,5 +27,5 @@ ec bw6_633 bw6-633 bw6-633 3 true 0
 ec bw6_761 bw6-761 bw6-761 3 true 0
 ec grumpkin grumpkin grumpkin 2 true 0
 ec secp256k1 secp256k1 bn254 0 true 1
-ec stark_curve stark-curve bn254 2 false 1
+ec stark_curve stark-curve bn254 2 true 1
 gofmt -l . || true
